@@ -1498,6 +1498,73 @@ pub fn run_conc(a: &Args) {
         out.case(&format!("conc stopandwait noise {:?}", t), &format!("{}", lost.is_none()));
         if na.shutdown() | nb.shutdown() { out.violation("[C17,C10] event processing panicked"); }
     }
+    // simultaneous sends followed by SILENCE: several threads, released together, each send one message on the same
+    // endpoint; then nothing is sent until every one of them has arrived (a frame that is only written by the
+    // next send() would wait forever). The peer is a raw socket that parses the frames itself.
+    {
+        let rounds = if a.thorough { 3000u64 } else { 250 };
+        let nthreads = 4u64;
+        mark_scenario(&out, &format!("FramedTcp: {} threads released together send one 48 KiB message each on one endpoint, then silence until all have arrived; {} rounds", nthreads, rounds));
+        let node = Net::new();
+        let l = TcpListener::bind("127.0.0.1:0").unwrap();
+        let (ep, _) = node.ctl.connect(Transport::FramedTcp, l.local_addr().unwrap()).unwrap();
+        let (mut peer, _) = l.accept().unwrap();
+        node.wait(3000, |ev| ev.iter().any(|e| matches!(e, Ev::Connected(e2, true) if *e2 == ep)));
+        let seen: Arc<Mutex<std::collections::HashSet<(u64, u64)>>> = Arc::new(Mutex::new(Default::default()));
+        let bad = Arc::new(std::sync::atomic::AtomicU64::new(0));
+        let reader = { let (seen, bad) = (seen.clone(), bad.clone()); std::thread::spawn(move || {
+            let _ = peer.set_read_timeout(Some(Duration::from_millis(200)));
+            let mut buf: Vec<u8> = vec![]; let mut chunk = vec![0u8; 1 << 16]; let mut idle = 0;
+            loop {
+                match peer.read(&mut chunk) { Ok(0) => break, Ok(n) => { idle = 0; buf.extend_from_slice(&chunk[..n]); } Err(_) => { idle += 1; if idle > 50 { break; } } }
+                loop {
+                    // varint length prefix
+                    let (mut len, mut shift, mut used, mut ok) = (0usize, 0u32, 0usize, false);
+                    for b in buf.iter() { used += 1; len |= ((*b & 0x7f) as usize) << shift; if *b & 0x80 == 0 { ok = true; break; } shift += 7; if shift > 56 { break; } }
+                    if !ok || buf.len() < used + len { break; }
+                    match untag(&buf[used..used + len]) { Some(k) => { if !seen.lock().unwrap().insert(k) { bad.fetch_add(1, Ordering::SeqCst); } } None => { bad.fetch_add(1, Ordering::SeqCst); } }
+                    buf.drain(..used + len);
+                }
+            }
+        }) };
+        let barrier = Arc::new(std::sync::Barrier::new(nthreads as usize + 1));
+        let statuses: Arc<Mutex<Vec<SendStatus>>> = Arc::new(Mutex::new(vec![]));
+        let go_on = Arc::new(AtomicBool::new(true));
+        let hs: Vec<_> = (0..nthreads).map(|th| { let (ctl, barrier, statuses, go_on) = (node.ctl.clone(), barrier.clone(), statuses.clone(), go_on.clone()); std::thread::spawn(move || {
+            let mut round = 0u64;
+            loop {
+                let m = tagged(th, round, 48 * 1024 + (th as usize) * 7);
+                barrier.wait();
+                if !go_on.load(Ordering::SeqCst) { break; }
+                let st = ctl.send(ep, &m);
+                statuses.lock().unwrap().push(st);
+                barrier.wait();
+                round += 1;
+            }
+        }) }).collect();
+        let mut failed: Option<String> = None;
+        for round in 0..rounds {
+            barrier.wait();   // release the senders
+            barrier.wait();   // all send() calls have returned
+            let sts: Vec<SendStatus> = statuses.lock().unwrap().drain(..).collect();
+            let end = Instant::now() + Duration::from_millis(2500);
+            let all = |seen: &Arc<Mutex<std::collections::HashSet<(u64, u64)>>>| { let s = seen.lock().unwrap(); (0..nthreads).all(|th| s.contains(&(th, round))) };
+            while !all(&seen) && Instant::now() < end { std::thread::sleep(Duration::from_micros(200)); }
+            if !all(&seen) || sts.iter().any(|s| *s != SendStatus::Sent) || bad.load(Ordering::SeqCst) > 0 {
+                let arrived: Vec<bool> = { let s = seen.lock().unwrap(); (0..nthreads).map(|th| s.contains(&(th, round))).collect() };
+                failed = Some(format!("round {}: send() answered {:?}; arrived within 2.5 s of silence, per thread: {:?}; corrupted or duplicated frames so far: {}", round, sts, arrived, bad.load(Ordering::SeqCst)));
+                break;
+            }
+        }
+        go_on.store(false, Ordering::SeqCst);
+        barrier.wait();
+        for h in hs { let _ = h.join(); }
+        if let Some(f) = failed { out.violation(&format!("[C10] FramedTcp: {} threads, released together, each send one ~48 KiB message on the same endpoint and then nobody sends until all have arrived: {}", nthreads, f)); }
+        out.add("conc_simultaneous_then_silence_rounds", rounds);
+        out.case("conc simultaneous-then-silence FramedTcp", "ok");
+        if node.shutdown() { out.violation("[C17,C10] event processing panicked"); }
+        let _ = reader.join();
+    }
     out.finish();
 }
 
